@@ -45,6 +45,9 @@ def run(c):
                 runs.append(scen("%s/%s/%d-persist" % (a, v, k), a, v, k, persist=True))
             if d == "file.Write":
                 runs.append(scen("%s/%s/%d-short" % (a, v, k), a, v, k, "short"))
+            if d == "file.Read":
+                runs.append(scen("%s/%s/%d-partial-error" % (a, v, k), a, v, k, "partial-error"))
+                runs.append(scen("%s/%s/%d-partial" % (a, v, k), a, v, k, "partial"))
             if d == "readerat.ReadAt":
                 runs.append(scen("%s/%s/%d-eof" % (a, v, k), a, v, k, "eof"))
     res2, deaths2 = c.run_worker("faults", runs, env=env)
@@ -93,7 +96,7 @@ def run(c):
     c.cov["exhaustive"] = True
     c.cov["rule"] = ("for each operation (sign blob / variable / image, write variable [object + legacy], signed update, read variable [object + legacy], parse / hash / sign / "
                      "verify image over synthetic and repository images, signed and unsigned) a fault-free run reveals its dependency-call sequence; then EVERY position k is "
-                     "failed once (error; short count for Write, short count + EOF for ReadAt as well; and 'from this call on every call fails', i.e. several faults in one run); recorded dependency calls + result validated by spec/DepFaultsTrace.tla. non-trivial = k > 0; distinct by (operation, variant, k, kind)")
+                     "failed once (error; short count for Write, short count + EOF for ReadAt, part of the bytes with and without an error for Read as well; and 'from this call on every call fails', i.e. several faults in one run); recorded dependency calls + result validated by spec/DepFaultsTrace.tla. non-trivial = k > 0; distinct by (operation, variant, k, kind)")
     for s in runs[:2] + runs[-1:]:
         c.sample(s)
     # canary: claim success after a fault
